@@ -34,7 +34,12 @@ type c05Case struct {
 	Terminal string   `json:"terminal"` // eof-boundary | eof-mid-header | eof-mid-body | stall-timeout | oversize
 	Partial  int      `json:"partial"`  // bytes of one further packet delivered before the terminal event
 	Oversize uint32   `json:"oversize"` // announced length of the terminal oversize header
+	// Proxy: the server runs with SetUseProxy(true) and every packet is preceded by an HAProxy
+	// protocol line terminated by a NUL octet, as that mode expects (server side only)
+	Proxy bool `json:"proxy,omitempty"`
 }
+
+const proxyLine = "PROXY TCP4 192.0.2.1 198.51.100.7 40000 49\r\n\x00"
 
 // consistentBody builds n bytes that are length-consistent under one layout of the packet type, so the
 // wrong-key heuristic stays silent (C19 covers that heuristic).
@@ -111,12 +116,23 @@ func genC05(t *rapid.T) c05Case {
 	case "oversize":
 		c.Oversize = rapid.SampledFrom([]uint32{65537, 65538, 1 << 17, 1 << 24, 1 << 31, 0xffffffff}).Draw(t, "oversize")
 	}
+	if c.Side == "server" {
+		c.Proxy = rapid.IntRange(0, 3).Draw(t, "proxy") == 0
+	}
+	pl := 0
+	if c.Proxy {
+		pl = len(proxyLine)
+	}
 	total := 0
 	var bounds []int
 	for _, p := range c.Pkts {
-		bounds = append(bounds, total+8, total+10, total+12)
+		total += pl
+		bounds = append(bounds, total, total+8, total+10, total+12)
 		total += 12 + p.N
 		bounds = append(bounds, total)
+	}
+	if c.Terminal != "eof-boundary" {
+		total += pl
 	}
 	total += c.Partial
 	if c.Terminal == "oversize" {
@@ -170,6 +186,9 @@ func (c c05Case) stream() (wire []byte, chunks [][]byte, clears [][]byte) {
 	for _, p := range c.Pkts {
 		clear := consistentBody(p.Type, p.N, p.Tile)
 		clears = append(clears, clear)
+		if c.Proxy {
+			wire = append(wire, proxyLine...)
+		}
 		wire = append(wire, model.Frame(c.Secret, p.header(), clear)...)
 	}
 	switch c.Terminal {
@@ -178,11 +197,17 @@ func (c c05Case) stream() (wire []byte, chunks [][]byte, clears [][]byte) {
 		if c.Side == "client" {
 			part[2] = 2
 		}
+		if c.Proxy {
+			wire = append(wire, proxyLine...)
+		}
 		wire = append(wire, part[:c.Partial]...)
 	case "oversize":
 		seq := byte(1)
 		if c.Side == "client" {
 			seq = 2
+		}
+		if c.Proxy {
+			wire = append(wire, proxyLine...)
 		}
 		wire = append(wire, model.EncodeHeader(model.Header{Version: 0xc0, Type: 1, Seq: seq, Session: 0x7fff0002, Length: c.Oversize})...)
 	}
@@ -197,6 +222,13 @@ func (c c05Case) stream() (wire []byte, chunks [][]byte, clears [][]byte) {
 	return wire, chunks, clears
 }
 
+func (c c05Case) pl() int {
+	if c.Proxy {
+		return len(proxyLine)
+	}
+	return 0
+}
+
 func (c c05Case) nontrivial() bool {
 	if c.Terminal != "eof-boundary" {
 		return true
@@ -207,6 +239,7 @@ func (c c05Case) nontrivial() bool {
 	// a cut strictly inside a packet
 	off := 0
 	for _, p := range c.Pkts {
+		off += c.pl()
 		end := off + 12 + p.N
 		for _, cut := range c.Cuts {
 			if cut > off && cut < end {
@@ -227,7 +260,7 @@ func runC05(t failer, c c05Case) {
 	_, chunks, clears := c.stream()
 	if c.Side == "server" {
 		rh := &recHandler{}
-		srv := startServer(nopLogger{}, staticSP{secret: nonNil(c.Secret), handler: rh})
+		srv := startServer(nopLogger{}, staticSP{secret: nonNil(c.Secret), handler: rh}, tq.SetUseProxy(c.Proxy))
 		conn, err := srv.connect(nil)
 		if err != nil {
 			t.Fatalf("%v", err)
@@ -256,6 +289,7 @@ func runC05(t failer, c c05Case) {
 			if !conn.AwaitQuiescentOrClosed(watchdog) {
 				t.Fatalf("HARNESS-BUG/INCONCLUSIVE: connection neither quiescent nor closed")
 			}
+			srv.log.SetMuted(true) // the event log's own growth must not be counted
 			runtime.GC()
 			runtime.ReadMemStats(&m0)
 			chunks = post
@@ -289,9 +323,15 @@ func runC05(t failer, c c05Case) {
 			}
 			var m1 runtime.MemStats
 			runtime.ReadMemStats(&m1)
-			if d := m1.TotalAlloc - m0.TotalAlloc; d > 64<<10 {
-				fail("oversize-allocated", "refusing an oversize header allocated %d bytes", d)
+			// refusing must not allocate anything like the announced size: half of it, at most 256 KiB
+			bound := uint64(c.Oversize / 2)
+			if bound > 256<<10 {
+				bound = 256 << 10
 			}
+			if d := m1.TotalAlloc - m0.TotalAlloc; d > bound {
+				fail("oversize-allocated", "refusing a header that announces %d bytes allocated %d bytes (bound %d)", c.Oversize, d, bound)
+			}
+			srv.log.SetMuted(false)
 		default:
 			if !conn.AwaitClosed(watchdog) {
 				t.Fatalf("HARNESS-BUG/INCONCLUSIVE: connection not closed after EOF")
@@ -366,7 +406,11 @@ func classifyC05(c c05Case) {
 	}
 	off := 0
 	hb, bb, inlen := false, false, false
+	if c.Proxy {
+		ev.Class("proxy-mode")
+	}
 	for _, p := range c.Pkts {
+		off += c.pl()
 		for _, cut := range c.Cuts {
 			switch {
 			case cut == off+12:
